@@ -128,9 +128,48 @@ func c11admit(n, first, thereafter uint64) bool {
 	return thereafter > 0 && (n-first)%thereafter == 0
 }
 
+// c11zeroTimes: entries that all carry the zero time.Time (hand-built entries,
+// slog records without a time) have equal timestamps, so they fall into one
+// window however much real time passes between them: the first N and then
+// every Mth of them are admitted, once. Run on the root goroutine; the time
+// that passes is the bubble's (a Sleep there is instantaneous).
+func c11zeroTimes(c *Ctx) {
+	g := c.G
+	w := &c11world{c: c, enabled: func(zapcore.Level) bool { return true }}
+	N, M := g.Draw(4), g.Draw(4)
+	tick := pick(g, time.Millisecond, time.Second, time.Minute)
+	k := 6 + g.Draw(8)
+	w.recs = make([]c11rec, k)
+	hook := func(e zapcore.Entry, d zapcore.SamplingDecision) {
+		rec := &w.recs[c11id(e)]
+		rec.hook++
+		rec.decision = d
+	}
+	sampler := zapcore.NewSamplerWithOptions(&c11core{w: w}, tick, N, M, zapcore.SamplerHook(hook))
+	c.Describe("member=zero-timestamps N=%d M=%d tick=%v entries=%d (two ticks of real time pass between them)", N, M, tick, k)
+	c.Nontrivial = true
+	for i := 0; i < k; i++ {
+		ent := zapcore.Entry{Level: zapcore.InfoLevel, Message: "zero time", LoggerName: fmt.Sprint(i)}
+		if ce := sampler.Check(ent, nil); ce != nil {
+			ce.Write()
+		}
+		want := c11admit(uint64(i+1), uint64(N), uint64(M))
+		rec := w.recs[i]
+		if (rec.forwarded == 1) != want || rec.forwarded != rec.written || rec.hook != 1 || (rec.decision&zapcore.LogSampled != 0) != want {
+			c.Fail("C11: entries with equal (zero) timestamps were not admitted as the first N then every Mth of one window", "entry %d of %d: forwarded=%d written=%d hook calls=%d decision=%d, expected admitted=%v (N=%d M=%d tick=%v)", i+1, k, rec.forwarded, rec.written, rec.hook, rec.decision, want, N, M, tick)
+			return
+		}
+		time.Sleep(2 * tick)
+	}
+}
+
 func runC11(c *Ctx) {
 	if c.G.Chance(8) {
 		runC11built(c)
+		return
+	}
+	if c.G.Chance(25) {
+		c11zeroTimes(c)
 		return
 	}
 	g, r := c.G, c.R
